@@ -39,7 +39,18 @@ def realise(cin, variant):
         if mt.endswith("smooth"):
             kw["ck"] = f("ck")
     co = docs.coeffs(mt, f("c"), **kw)
-    doc = docs.document({"fw-su_sh_wi": docs.submodel(co, T_min=-80.0, T_max=160.0, T_min_seg=-70.0, T_max_seg=150.0, f_unc=1.5)}, tz=tz,
+    seg_lo, seg_hi = -70.0, 150.0
+    if variant.endswith(":seg"):
+        # a fit parks a balance point ON its segment bound when usage depends on temperature over the whole fitted range:
+        # the recorded segment limits coincide with the stored balance points (the outer limits stay beyond the probes)
+        bps = [kw[k] for k in ("hbp", "cbp") if k in kw]
+        if "hbp" in kw and "cbp" in kw:
+            seg_lo, seg_hi = kw["hbp"], kw["cbp"]
+        elif "hbp" in kw:
+            seg_hi = kw["hbp"]
+        elif "cbp" in kw:
+            seg_lo = kw["cbp"]
+    doc = docs.document({"fw-su_sh_wi": docs.submodel(co, T_min=-80.0, T_max=160.0, T_min_seg=seg_lo, T_max_seg=seg_hi, f_unc=1.5)}, tz=tz,
                         profile="current" if mt.endswith("smooth") and not billing else "legacy", billing=billing)
     out = {"res": "ok", "rows": []}
     try:
